@@ -58,6 +58,9 @@ ProgTree1 == (1 :> <<Ins(3, 31), Rem(1)>>) @@ (2 :> <<Rem(2)>>) @@ (3 :> <<Get(3
 ProgTree2 == (1 :> <<Ins(3, 31)>>) @@ (2 :> <<Ins(4, 41), Rem(3)>>) @@ (3 :> <<Get(4)>>)
 ProgTree3 == (1 :> <<Ins(4, 41)>>) @@ (2 :> <<Rem(1), Rem(2)>>) @@ (3 :> <<Get(3)>>)
 HashPair == [k \in 1..9 |-> IF k % 2 = 0 THEN 2 ELSE 0]
+\* ---- clear() empties a bin, the bin is re-populated with two keys whose split re-uses the tail node, the resize is
+\*      in the middle of that bin when clear() meets a forwarding marker further up (finding F8 when CLRWAIT = FALSE)
+ProgClr3 == (1 :> <<Clear>>) @@ (2 :> <<Ins(1, 21), Ins(5, 22)>>) @@ (3 :> <<Get(5)>>)
 Init3 == <<E(1, 10), E(2, 20), E(3, 30)>>
 Init1 == <<E(1, 10)>>
 Init2 == <<E(1, 10), E(2, 20)>>
